@@ -128,6 +128,9 @@ ORDERS = ["C", "F", "T", "step", "rev", "crop"]
 EXTRA_FORMATS = ["<f8", "<f8", "<f4", "<i4", "u1", "<i2"]
 
 
+TEXT_ORDERS = ORDERS + ["swapped", "field", "swapped-T"]  # 2-D float64 arrays only: other byte order, unaligned field view
+
+
 class BadCase(Exception):
     """the abstract case does not describe a buildable input (only a shrinker or a hand-written replay can get here)"""
 
@@ -151,14 +154,29 @@ def alloc(shape, dtype, order):
     raise BadCase(f"order {order!r}")
 
 
-def build_structured(shape, names, vals, layout, order):
+def alloc_text(shape, order):
+    """zeroed 2-D float64 array for `textimage.save`: the layouts of `alloc`, the non-native byte order (also transposed),
+    the float64 member of a packed record (unaligned, strided)"""
+    if order == "swapped":
+        return np.zeros(shape, np.dtype(np.float64).newbyteorder())
+    if order == "swapped-T":
+        return np.zeros(shape[::-1], np.dtype(np.float64).newbyteorder()).T
+    if order == "field":
+        return np.zeros(shape, np.dtype([("pad", "u1"), ("v", "<f8")]))["v"]
+    return alloc(shape, np.float64, order)
+
+
+def build_structured(shape, names, vals, layout, order, swapped=()):
     """the structured float64 image of the case: fields `names` (in this order) holding `vals`, laid out in memory as
     `layout` says - packed in name order (None), a multi-field selection `base[names]` of a record whose fields lie in
     another order and may have other members between them ("select"), or a dtype with explicit offsets and itemsize
     ("offsets")"""
     k = len(names)
+    other = np.dtype(np.float64).newbyteorder()  # float64 in the byte order that is not the machine's
+    if swapped and layout is not None:
+        raise BadCase("fields in the other byte order: packed layout only")
     if layout is None:
-        data = alloc(shape, [(n, np.float64) for n in names], order)
+        data = alloc(shape, [(n, other if i in swapped else np.float64) for i, n in enumerate(names)], order)
     elif layout.get("via") == "select":
         rec = layout["record"]
         if sorted(i for i, _ in rec if i >= 0) != list(range(k)) or any(f != "<f8" for i, f in rec if i >= 0):
@@ -190,7 +208,7 @@ def build_structured(shape, names, vals, layout, order):
     for n, v in zip(names, vals):
         data[n][...] = np.array(v, dtype="<i8").view(np.float64).reshape(shape)
     for n, v in zip(names, vals):  # the input really is the image of the case, whatever the layout
-        if data[n].shape != tuple(shape) or [int(x) for x in data[n].view("<i8").ravel()] != [int(x) for x in v]:
+        if data[n].shape != tuple(shape) or [int(x) for x in data[n].astype(np.float64).view(np.int64).ravel()] != [int(x) for x in v]:
             raise BadCase("the built array does not hold the values of the case")
     return data
 
@@ -205,6 +223,10 @@ def layout_features(data, prefix):
             f.add(prefix + "padded-record")
         if any(o % 8 for o in offs) or data.dtype.itemsize % 8:
             f.add(prefix + "unaligned-field")
+    if data.dtype.names is None and not data.dtype.isnative:
+        f.add(prefix + "non-native-byte-order")
+    if data.dtype.names is None and not data.flags.aligned:
+        f.add(prefix + "unaligned")
     if data.size > 1 and not (data.flags.c_contiguous or data.flags.f_contiguous):
         f.add(prefix + "noncontiguous")
     elif data.size > 1 and data.ndim > 1 and not data.flags.c_contiguous:
@@ -574,13 +596,36 @@ def write_text_of(step) -> str:
     return "".join(join_with(ss, row) + "\n" for ss, row in zip(step["seps"], rows))
 
 
+SPACING_AS = ["tuple", "list", "np.float64", "np.float32", "ndarray"]
+
+
+def spacing_object(case):
+    """the `spacing` argument of the case: a tuple of Python numbers, or a list / NumPy scalars / an array of them"""
+    sp, how = case["spacing"], case.get("spacing_as", "tuple")
+    if len(sp) != 3:
+        raise BadCase("three spacings")
+    if how == "tuple":
+        return tuple(sp)
+    if how == "list":
+        return list(sp)
+    if how == "np.float64":
+        return tuple(np.float64(x) for x in sp)
+    if how == "np.float32":
+        return tuple(np.float32(x) for x in sp)
+    if how == "ndarray":
+        return np.array(sp, dtype=np.float64)
+    raise BadCase(f"spacing_as {how!r}")
+
+
 def vtk_write(case, path):
     """pewlib's vtk.save for the image of the case: the bytes of the file, or what was raised"""
     from pewlib.io import vtk
 
-    data = build_structured(case["shape"], case["names"], case["vals"], case.get("layout"), case.get("order", "C"))
+    data = build_structured(case["shape"], case["names"], case["vals"], case.get("layout"), case.get("order", "C"),
+                            case.get("swapped_fields", ()))
+    spacing = spacing_object(case)
     try:
-        vtk.save(path, data, tuple(case["spacing"]))
+        vtk.save(str(path) if case.get("strpath") else path, data, spacing)
         return {"raw": path.read_bytes()}
     except Exception as e:
         return {"raises": type(e).__name__, "note": str(e)[:200]}
@@ -596,19 +641,20 @@ def run_steps(req) -> dict:
     results = []
     for st in req["steps"]:
         path = base / st["file"]
+        target = str(path) if st.get("strpath") else path
         op = st["op"]
         if op == "save":
             r, c = st["rows"], st["cols"]
             arr = np.array([untok(t) for t in st["vals"]], dtype=np.float64).reshape(r, c)
             if st.get("order", "C") != "C":
-                laid = alloc([r, c], np.float64, st["order"])
+                laid = alloc_text([r, c], st["order"])
                 laid[...] = arr
                 arr = laid
             try:
                 if st.get("header") is None:
-                    textimage.save(path, arr)
+                    textimage.save(target, arr)
                 else:
-                    textimage.save(path, arr, header=st["header"])
+                    textimage.save(target, arr, header=st["header"])
                 results.append({"text": read_chars(path)})
             except Exception as e:
                 results.append({"raises": type(e).__name__, "note": str(e)[:200]})
@@ -621,7 +667,7 @@ def run_steps(req) -> dict:
                 options["delimiter"] = st["delimiter"]
             if st.get("name") is not None:
                 options["name"] = st["name"]
-            seen, warned, note = run_load(path, **options)
+            seen, warned, note = run_load(target, **options)
             results.append({"seen": seen, "warned": warned, "note": note})
         elif op == "vtk":
             got = vtk_write(st, path)
@@ -712,6 +758,16 @@ def gen_vtk_case(rng):
             n = rng.choice(["A", "Ca44", "P31", "Eu153"])
         if n not in names and n.strip() == n and "  " not in n:
             names.append(n)
+    u = rng.random()
+    if u < 0.04:  # a very long name
+        n = "".join(rng.choice(NAME_ALPHABET) for _ in range(rng.choice([200, 255, 256, 1000, 3000]))).strip() or "A"
+        if "  " not in n and n not in names:
+            names[rng.randrange(nf)] = n
+    elif u < 0.07:  # a large image
+        shape = rng.choice([[rng.randint(40, 110), rng.randint(40, 110)], [rng.randint(20, 30), rng.randint(20, 30), rng.randint(4, 12)],
+                            [1, 1, rng.randint(2000, 5000)], [1, rng.randint(2000, 5000)], [rng.randint(2000, 5000), 1]])
+        names = names[:2]
+        nf = len(names)
     size = int(np.prod(shape))
     spacing = [rng.choice([1, 1.0, 0.5, 35.0, 1e-3, 2.5e-5, 1234.5678, rng.uniform(1e-6, 1e6)]) for _ in range(3)]
     case = {"kind": "vtk", "shape": shape, "names": names, "vals": [[gen_value(rng) for _ in range(size)] for _ in names],
@@ -721,7 +777,29 @@ def gen_vtk_case(rng):
         case["layout"] = layout
     if rng.random() < 0.5:
         case["order"] = rng.choice(ORDERS[1:])
+    if rng.random() < 0.15:
+        case["spacing_as"] = rng.choice(SPACING_AS[1:])
+    if rng.random() < 0.1:
+        case["strpath"] = True
     return case
+
+
+def gen_large_text(rng):
+    """images of 400 .. 6000 values: one long row (a line of more than 64 KiB), one long column, a few long rows, many rows"""
+    n = rng.choice([400, 1500, 3000, 3500, 5000, 6000])
+    r, c = rng.choice([(1, n), (1, n), (n, 1), (2, n // 2), (3, n // 3), (n // 40, 40), (n // 12, 12)])
+    if rng.random() < 0.5:
+        vals = [gen_value(rng) for _ in range(r * c)]
+    else:  # full-precision finite values: every field 22 - 25 characters
+        vals = [tok(rng.uniform(-1, 1) * 10.0 ** rng.randint(-300, 300)) for _ in range(r * c)]
+    if rng.random() < 0.6:
+        case = {"kind": "text", "rows": r, "cols": c, "vals": vals, "header": rng.choice([None, None, "large"])}
+        if rng.random() < 0.3:
+            case["order"] = rng.choice(TEXT_ORDERS[1:])
+        return case
+    style = rng.choice([";", "\t", "mixed", "mixed"])
+    seps = [[rng.choice(DELIMS) if style == "mixed" else style for _ in range(c - 1)] for _ in range(r)]
+    return {"kind": "delims", "rows": r, "cols": c, "vals": vals, "seps": seps}
 
 
 def gen_put(rng, file):
@@ -734,7 +812,7 @@ def gen_put(rng, file):
         if rng.random() < 0.2:
             st["header"] = "".join(rng.choice(list("abc XYZ,;#01\t") + ["\n", "1;2", " "]) for _ in range(rng.randint(0, 6)))
         if rng.random() < 0.2:
-            st["order"] = rng.choice(ORDERS[1:])
+            st["order"] = rng.choice(TEXT_ORDERS[1:])
         return st, ","
     if u < 0.93:
         style = rng.choice([",", ";", "\t", ";", "\t", "mixed"])
@@ -754,7 +832,10 @@ def gen_load(rng, file, style, explicit=None):
         d = style
     else:
         d = rng.choice(DELIMS)
-    return {"op": "load", "file": file, "delimiter": d, "name": rng.choice(SESSION_NAMES) if rng.random() < 0.2 else None}
+    st = {"op": "load", "file": file, "delimiter": d, "name": rng.choice(SESSION_NAMES) if rng.random() < 0.2 else None}
+    if rng.random() < 0.1:
+        st["strpath"] = True
+    return st
 
 
 def gen_session_text(rng):
@@ -875,6 +956,8 @@ class C16(Prop):
         lists them)"""
         if case.get("kind") == "text" and "\r" in (case.get("header") or ""):
             return "C16-header-carriage-return"
+        if any(c.get("swapped_fields") for c in [case] + [st for st in case.get("steps", []) if st.get("op") == "vtk"]):
+            return "C16-vtk-field-in-other-byte-order"
         if case.get("kind") == "vtk":
             bad = [ch for n in case["names"] for ch in n if ch in "\t\r\n" or (ord(ch) < 32)]
             if any(ch in "\t\r\n" for ch in bad) and all(ch in "\t\r\n" for ch in bad):
@@ -896,10 +979,14 @@ class C16(Prop):
             if rng.random() < 0.25:  # also multi-line headers and headers that look like data
                 header = "".join(rng.choice(list("abc XYZ,;#01\t") + ["\n", "\n", "1,2", " "]) for _ in range(rng.randint(0, 8)))
             case = {"kind": "text", "rows": r, "cols": c, "vals": gen_vals(rng, r, c), "header": header}
-            if rng.random() < 0.35:
-                case["order"] = rng.choice(ORDERS[1:])
+            if rng.random() < 0.4:
+                case["order"] = rng.choice(TEXT_ORDERS[1:])
+            if rng.random() < 0.15:
+                case["strpath"] = True
             return case
-        if k < 0.37:
+        if k < 0.355:
+            return gen_large_text(rng)
+        if k < 0.39:
             return gen_late_switch(rng)
         if k < 0.49:
             r, c = gen_shape2(rng)
@@ -964,6 +1051,8 @@ class C16(Prop):
             yield {"kind": "text", "rows": 2, "cols": 1, "vals": [tok(1.0), tok(2.5)], "header": "a\r5"}
         if "C16-name-white-space" in registered:
             yield {"kind": "vtk", "shape": [1, 1], "names": ["a\tb"], "vals": [[tok(1.0)]], "spacing": [1, 1, 1]}
+        if "C16-vtk-field-in-other-byte-order" in registered:
+            yield {"kind": "vtk", "shape": [1, 1], "names": ["A"], "vals": [[tok(1.0)]], "spacing": [1, 1, 1], "swapped_fields": [0]}
         if "C16-name-control-character" in registered:
             yield {"kind": "vtk", "shape": [1, 1], "names": ["a\x01b"], "vals": [[tok(1.0)]], "spacing": [1, 1, 1]}
         # sessions: several calls in one process, each judged on its own
@@ -1020,8 +1109,23 @@ class C16(Prop):
                     yield {**base, "order": order, "layout": {"via": "select", "record": [[i, "<f8"] for i in back], "align": False}}
         yield {"kind": "vtk", "shape": [2, 2], "names": ["A"], "vals": [[tok(float(i)) for i in range(4)]], "spacing": [1, 1, 1],
                "layout": {"via": "offsets", "offsets": [8], "itemsize": 24}}
-        for order in ORDERS[1:]:
+        for order in TEXT_ORDERS[1:]:
             yield {"kind": "text", "rows": 3, "cols": 4, "vals": [tok(SPECIALS[i]) for i in range(12)], "header": None, "order": order}
+            yield {"kind": "text", "rows": 4, "cols": 1, "vals": [tok(SPECIALS[i + 5]) for i in range(4)], "header": "h", "order": order, "strpath": True}
+        # the spacing given as other objects than a tuple of Python numbers, the path as a string, very long names
+        for how in SPACING_AS[1:]:
+            yield {"kind": "vtk", "shape": [2, 3], "names": ["A", "B"], "vals": [[tok(float(i)) for i in range(6)], [tok(-float(i)) for i in range(6)]],
+                   "spacing": [0.1, 35, 2.5e-5], "spacing_as": how, "strpath": how == "list"}
+        for n in (200, 256, 3000):
+            yield {"kind": "vtk", "shape": [1, 2], "names": ["N" * n, "é&" * (n // 2)], "vals": [[one, one], [one, one]], "spacing": [1, 1, 1]}
+        # large images: a line of more than 64 KiB, a long column, wide rows; a large VTK image
+        big = lambda n: [tok((((i * 7919) % 20011) - 10000) / 7.0 * 10.0 ** ((i * 31) % 600 - 300)) for i in range(n)]
+        yield {"kind": "text", "rows": 1, "cols": 5000, "vals": big(5000), "header": None}
+        yield {"kind": "text", "rows": 5000, "cols": 1, "vals": big(5000), "header": None}
+        yield {"kind": "text", "rows": 3, "cols": 1500, "vals": big(4500), "header": "x", "order": "T"}
+        yield {"kind": "delims", "rows": 2, "cols": 3000, "vals": big(6000), "seps": [[DELIMS[(i + j) % 3] for j in range(2999)] for i in range(2)]}
+        yield {"kind": "vtk", "shape": [70, 90], "names": ["A", "B"], "vals": [big(6300), big(6300)[::-1]], "spacing": [1, 1, 1]}
+        yield {"kind": "vtk", "shape": [20, 25, 9], "names": ["A"], "vals": [big(4500)], "spacing": [1, 1, 1], "order": "F"}
         # delimiter files whose second style of separator first appears after 1 KiB ... 128 KiB
         for n, at in enumerate(SWITCH_AT):
             for m, (head, tail) in enumerate([(",", ";"), (",", "\t"), (",", "mixed"), (",", "one"), (";", ","), ("\t", "one"), ("noncomma", ",")]):
@@ -1051,26 +1155,33 @@ class C16(Prop):
         arr = np.array([untok(t) for t in toks], dtype=np.float64).reshape(r, c)
         path = ctx.tmpdir() / "image.csv"
         feats = shape_features(r, c) | classify(toks)
+        if r * c >= 400:
+            feats.add("text:large")
         extra_impl, extra_model = {}, {}
         if kind == "text":
             header = case["header"]
             if case.get("order", "C") != "C":  # the same image in another memory layout
                 try:
-                    laid = alloc([r, c], np.float64, case["order"])
+                    laid = alloc_text([r, c], case["order"])
                 except BadCase as e:
                     return outcome(None, None, None, spec_ok=True, model_ok=True, undetermined=True, note=f"bad case: {e}")
                 laid[...] = arr
                 arr = laid
                 feats |= {"text:order=" + case["order"]} | layout_features(arr, "text:")
+            target = str(path) if case.get("strpath") else path
+            if case.get("strpath"):
+                feats.add("text:path-is-str")
             try:
                 if header is None:
-                    textimage.save(path, arr)
+                    textimage.save(target, arr)
                 else:
-                    textimage.save(path, arr, header=header)
+                    textimage.save(target, arr, header=header)
                     feats.add("header" + (":multi-line" if "\n" in header else ""))
             except Exception as e:
                 return outcome({"raises": True, "where": "save", "type": type(e).__name__}, None, None, spec_ok=False, model_ok=False)
             text = read_chars(path)  # the bytes pewlib wrote
+            if r * c >= 400 and max(len(ln) for ln in text.split("\n")) > 65536:
+                feats.add("text:line-longer-than-64KiB")
             tokens = ["%.18g" % untok(t) for t in toks]  # the model's opaque printer, evaluated by Python
             rep = ctx.driver.call("c16.text", rows=r, cols=c, tokens=tokens, header=header or "", file=text)
             # the theorem speaks about the model's rendering: it covers this very file when the two are the same bytes
@@ -1092,7 +1203,7 @@ class C16(Prop):
             if rep["rendered"] != text:  # only a hand-written replay gets here (separator lists that do not fit the columns)
                 return outcome(None, None, None, spec_ok=True, model_ok=True, undetermined=True, hyp=False,
                                note="bad case: the harness file is not the model's saveWith rendering")
-        impl, _, note = run_load(path)
+        impl, _, note = run_load(str(path) if case.get("strpath") else path)
         model = conv_side(rep["real"])
         spec_fields = rep["spec"]
         spec = {"shape": spec_fields["shape"], "data": [ctok(pyfloat(f)) for f in spec_fields["fields"]], "dtype": "float64"}
@@ -1158,7 +1269,7 @@ class C16(Prop):
                     if st["rows"] < 1 or st["cols"] < 1 or len(st["vals"]) != st["rows"] * st["cols"]:
                         raise BadCase("values / shape mismatch")
                 if op == "save":
-                    if st.get("order", "C") not in ORDERS:
+                    if st.get("order", "C") not in TEXT_ORDERS:
                         raise BadCase("order")
                     sent.append({**st, "file": f"f{int(st['file'])}.csv"})
                     put_files.add(st["file"])
@@ -1172,7 +1283,7 @@ class C16(Prop):
                         raise BadCase("the model reads one-character delimiters")
                     sent.append({**st, "file": f"f{int(st['file'])}.csv"})
                 elif op == "vtk":
-                    build_structured(st["shape"], st["names"], st["vals"], st.get("layout"), st.get("order", "C"))
+                    build_structured(st["shape"], st["names"], st["vals"], st.get("layout"), st.get("order", "C"), st.get("swapped_fields", ()))
                     sent.append({**st, "file": f"v{int(st['file'])}.vti"})
                 else:
                     raise BadCase(f"step {op!r}")
@@ -1309,8 +1420,8 @@ class C16(Prop):
         model and specification: (impl, model, spec, hyp, features, note)"""
         shape, names = case["shape"], case["names"]
         layout, order = case.get("layout"), case.get("order", "C")
-        data = build_structured(shape, names, case["vals"], layout, order)  # for the layout features only
-        spacing = tuple(case["spacing"])
+        data = build_structured(shape, names, case["vals"], layout, order, case.get("swapped_fields", ()))  # for the layout features only
+        spacing = spacing_object(case)
         note = ""
         n0, n1 = shape[0], shape[1]
         n2 = shape[2] if len(shape) == 3 else 1
@@ -1396,8 +1507,20 @@ class C16(Prop):
             feats.add("vtk:name-contains-entity-text")
         if any(math.isnan(untok(t)) for vals in case["vals"] for t in vals):
             feats.add("value:nan")
-        if any(not isinstance(x, float) for x in spacing):
+        if case.get("swapped_fields"):
+            feats.add("vtk:field-in-other-byte-order")
+        if any(isinstance(x, int) for x in spacing):
             feats.add("vtk:integer-spacing")
+        if case.get("spacing_as", "tuple") != "tuple":
+            feats.add("vtk:spacing-as=" + case["spacing_as"])
+        if case.get("strpath"):
+            feats.add("vtk:path-is-str")
+        if any(len(n) >= 200 for n in names):
+            feats.add("vtk:very-long-name")
+        if any(ord(ch) > 127 for n in names for ch in n):
+            feats.add("vtk:non-ascii-name")
+        if n0 * n1 * n2 >= 2000:
+            feats.add("vtk:large")
         feats |= {x for vals in case["vals"] for x in classify(vals)}
         return impl, model, spec, hyp, feats, note
 
@@ -1508,7 +1631,9 @@ class C16(Prop):
                 yield {**case, "header": None}
             if case.get("order", "C") != "C":
                 yield {k: v for k, v in case.items() if k != "order"}
-            for i, v in enumerate(case["vals"]):
+            if case.get("strpath"):
+                yield {k: v for k, v in case.items() if k != "strpath"}
+            for i, v in enumerate(case["vals"][:64]):
                 if v != one:
                     yield {**case, "vals": case["vals"][:i] + [one] + case["vals"][i + 1:]}
         else:
@@ -1554,6 +1679,9 @@ class C16(Prop):
                         m = n[:j] + n[j + 1:]
                         if m and m not in names:
                             yield {**case, "names": names[:i] + [m] + names[i + 1:]}
+            for key in ("spacing_as", "strpath"):
+                if key in case:
+                    yield {k: v for k, v in case.items() if k != key}
             if case["spacing"] != [1, 1, 1]:
                 yield {**case, "spacing": [1, 1, 1]}
             flat = [tok(float(i)) for i in range(int(np.prod(shape)))]
